@@ -10,7 +10,7 @@ use std::{
 use serde::Deserialize;
 
 use crate::{
-    absent_nullable::AbsentNullable,
+    absent_nullable::{deserialize_non_null_string, AbsentNullable},
     file_info::{FileInfo, FileInfoSerial},
     gp_info::{GpInfo, GpInfoSerial},
     traits::Serial,
@@ -170,6 +170,7 @@ fn find_sections_subgroups_cycle(
 #[derive(Deserialize, PartialEq, Debug)]
 #[serde(deny_unknown_fields)]
 pub(crate) struct SegmentSerial {
+    #[serde(deserialize_with = "deserialize_non_null_string")]
     pub name: String,
     pub files: Vec<FileInfoSerial>,
 
